@@ -211,6 +211,14 @@ func runC06(r *Run, rng *Rng, thorough bool) {
 			try(class, e, b)
 		}
 	}
+	// (0) lead-in / lead-out bytes around well-formed JSON documents: byte-order marks, whitespace runs, NUL and control
+	// bytes — what "tolerant" pre-processing loops in front of the decoder would look at
+	for _, doc := range [][]byte{j1, j2, shJ, []byte("{}"), []byte("x"), {}} {
+		for _, pre := range []string{"\xef\xbb\xbf", "\xef\xbb\xbf\xef\xbb\xbf", "\xef\xbb", "\xff\xfe", "\xfe\xff", "\x00", " \t\r\n", "\x1b", "\xef\xbb\xbf "} {
+			tryJSON("json-lead-in", append([]byte(pre), doc...))
+			tryJSON("json-lead-out", append(append([]byte{}, doc...), pre...))
+		}
+	}
 	lens := []uint64{1 << 8, 1<<16 - 1, 1 << 16, 1 << 17, 1 << 20, 1 << 24, 1<<31 - 1, 1 << 31, 1<<32 - 1, 1 << 32, 1 << 40, 1<<63 - 1, 1 << 63, 1<<64 - 1}
 	// (1) hostile headers: a declared length with little or nothing behind it — bare, behind tags, and in every
 	// value position of a claims map, of an envelope, and of an encoding-package map
